@@ -9,7 +9,11 @@ Corpora == UNION {[1..n -> LinePool] : n \in 0..MaxLines}
 Cases == {[lines |-> c, max_size |-> ms, max_seq |-> mq, mode |-> m, threads |-> <<0, 1, 2, 4>>, split |-> 1,
            queries |-> << <<2>>, <<4, 4, 4>>, <<3, 2>>, <<>> >>] :
              c \in Corpora, ms \in {-1, 0, 1, 2, 5}, mq \in {-1, 0, 1, 2}, m \in {"word", "char1", "char3"}}
+\* word mode with the spacing acute accent (slot 7): in the cleaned, normalised text it is a blank plus a combining mark
+AccentPool == {<<2, 7, 3>>, <<2, 7, 3, 1, 2>>, <<7, 2>>, <<2, 7>>, <<2, 1, 3>>}
+AccentCases == {[lines |-> c, max_size |-> ms, max_seq |-> 0 - 1, mode |-> "word", threads |-> <<0, 2>>, split |-> 1, queries |-> << <<2>> >>] :
+                  c \in UNION {[1..n -> AccentPool] : n \in 1..2}, ms \in {0 - 1, 1}}
 VARIABLE x
-Init == x = 0 /\ ndJsonSerialize(IOEnv.OUT, SetToSeq(Cases))
+Init == x = 0 /\ ndJsonSerialize(IOEnv.OUT, SetToSeq(Cases) \o SetToSeq(AccentCases))
 Next == UNCHANGED x
 =============================================================================
